@@ -326,14 +326,21 @@ func checkC20(c *Ctx) {
 			c.Undecided("C20-R7", name, "-", "not found")
 			continue
 		}
-		const cellOwner = "views.boxLayoutCell"
+		// the per-child record and its fields are identified by role (element type of the layout's
+		// list; the int is the extra size, the *ViewPort the child's window, of the two floats the one
+		// stored from AddWidget's parameter is the fill factor and the other the kept fraction)
+		cellOwner, role := boxCellRoles(p, bl)
+		if cellOwner == "" {
+			c.Undecided("C20-R7", name+":record", p.pos(fn.Pos()), "the per-child record of the layout was not identified")
+			continue
+		}
 		fn = layoutHost(p, fn, cellOwner) // the distribution may live in a helper shared by both orientations
 		fieldOf := func(v ssa.Value, name string) bool {
 			ref, _, ok := loadedField(stripConv(v))
-			return ok && ref.Owner == cellOwner && ref.Name == name
+			return ok && ref.Owner == cellOwner && ref.Name == role[name]
 		}
 		share, padInt, fracRest, residSub, winPad, winFrac := false, false, false, false, false, false
-		for _, st := range storesTo(fn, cellOwner, "frac") {
+		for _, st := range storesTo(fn, cellOwner, role["frac"]) {
 			v := st.Val
 			// frac = float64(extra) * fill / totf
 			if q, ok := v.(*ssa.BinOp); ok && q.Op == token.QUO {
@@ -342,7 +349,7 @@ func checkC20(c *Ctx) {
 						if !fieldOf(q.Y, "fill") {
 							// guarded by fill > 0
 							for _, a := range guardsAt(st.Block()) {
-								if strings.Contains(a.L, "fill") && a.Op == ">" && a.R == "0" {
+								if strings.HasSuffix(a.L, "."+role["fill"]) && a.Op == ">" && a.R == "0" {
 									share = true
 								}
 							}
@@ -358,7 +365,7 @@ func checkC20(c *Ctx) {
 				winFrac = true
 			}
 		}
-		for _, st := range storesTo(fn, cellOwner, "pad") {
+		for _, st := range storesTo(fn, cellOwner, role["pad"]) {
 			if cv, ok := st.Val.(*ssa.Convert); ok && fieldOf(cv.X, "frac") {
 				padInt = true
 			}
@@ -477,7 +484,8 @@ func checkC20(c *Ctx) {
 			continue
 		}
 		// the loop: header with a phi (the remainder counter) compared > 0, wherever it lives
-		fn = layoutHost(p, fn, "views.boxLayoutCell")
+		cellOwnerR4, _ := boxCellRoles(p, bl)
+		fn = layoutHost(p, fn, cellOwnerR4)
 		var resid *ssa.Phi
 		for v := range remainderCounters(fn) {
 			if phi, ok := v.(*ssa.Phi); ok {
@@ -788,4 +796,78 @@ func remainderCounters(fn *ssa.Function) map[ssa.Value]bool {
 		}
 	}
 	return out
+}
+
+// boxCellRoles: the record BoxLayout keeps per child and its fields by role.  The record is the struct
+// the layout's list holds pointers to; "pad" is its int field, "view" its *ViewPort, "widget" its Widget;
+// of its two float64 fields "fill" is the one AddWidget/InsertWidget store their parameter into and
+// "frac" the other.
+func boxCellRoles(p *Prog, bl map[string]*ssa.Function) (string, map[string]string) {
+	named := p.namedType(p.Views, "BoxLayout")
+	if named == nil {
+		return "", nil
+	}
+	st, ok := named.Underlying().(*types.Struct)
+	if !ok {
+		return "", nil
+	}
+	var cell *types.Named
+	for i := 0; i < st.NumFields(); i++ {
+		if sl, isSl := st.Field(i).Type().Underlying().(*types.Slice); isSl {
+			if ptr, isPtr := sl.Elem().(*types.Pointer); isPtr {
+				if n, isN := ptr.Elem().(*types.Named); isN {
+					if _, isSt := n.Underlying().(*types.Struct); isSt {
+						cell = n
+					}
+				}
+			}
+		}
+	}
+	if cell == nil {
+		return "", nil
+	}
+	owner := typeName(cell)
+	cst := cell.Underlying().(*types.Struct)
+	role := map[string]string{}
+	var floats []string
+	for i := 0; i < cst.NumFields(); i++ {
+		f := cst.Field(i)
+		switch {
+		case strings.HasSuffix(typeName(f.Type()), "views.Widget"):
+			role["widget"] = f.Name()
+		case strings.HasSuffix(typeName(f.Type()), "views.ViewPort"):
+			role["view"] = f.Name()
+		default:
+			if bt, isB := f.Type().Underlying().(*types.Basic); isB {
+				if bt.Kind() == types.Int {
+					role["pad"] = f.Name()
+				}
+				if bt.Kind() == types.Float64 {
+					floats = append(floats, f.Name())
+				}
+			}
+		}
+	}
+	for _, name := range []string{"AddWidget", "InsertWidget"} {
+		fn := bl[name]
+		if fn == nil {
+			continue
+		}
+		for _, f := range floats {
+			for _, st := range storesTo(fn, owner, f) {
+				if _, isP := stripConv(st.Val).(*ssa.Parameter); isP {
+					role["fill"] = f
+				}
+			}
+		}
+	}
+	for _, f := range floats {
+		if f != role["fill"] {
+			role["frac"] = f
+		}
+	}
+	if role["fill"] == "" || role["frac"] == "" || role["pad"] == "" {
+		return "", nil
+	}
+	return owner, role
 }
